@@ -12,7 +12,7 @@ import (
 func init() {
 	register(&Check{ID: "C20", Run: runC20,
 		Explanation: "The per-record callback of max_diff_watermark is interpreted for record time {<,=,>} current watermark × rounded time {>,≤} largest rounded time seen: a record passes iff its time is strictly above the current watermark, unchanged except that its event time is set to the time field before it is produced; the candidate is the time rounded down to the resolution (UnixNano / resolution * resolution, same resolution twice); a watermark is emitted only when the rounded time strictly exceeds the largest seen, which is updated in the same step, and its value is that rounded time minus max_diff — hence strictly increasing; watermarks of the source are not forwarded. PAN1: the resolution cannot be zero when the division runs.",
-		NotDecided: []string{"the arithmetic of rounding for times before 1970 or beyond the int64 nanosecond range"},
+		NotDecided:  []string{"the arithmetic of rounding for times before 1970 or beyond the int64 nanosecond range"},
 	})
 }
 
